@@ -174,6 +174,8 @@ def check_C05(ctx: Ctx) -> None:
     _c05_term_level(ctx, r)
     _c05_term_level_directed(ctx, r)
     _c05_stream_level(ctx, r)
+    _c05_row_level(ctx, ctx.rng("rows"))
+    _c05_grouped_level(ctx, ctx.rng("grouped"))
 
 
 def _c05_stream_level(ctx: Ctx, r) -> None:
@@ -217,6 +219,107 @@ def _c05_stream_level(ctx: Ctx, r) -> None:
     model = [m.replace("~", "") for m in __import__("common").run_driver(reqs)]
     for q, a, m in zip(reqs, resp, model):
         ctx.compare("SERSTEP", q, a, m)
+
+
+def _c05_row_level(ctx: Ctx, r) -> None:
+    """Whole statements through Triple/QuadStream with prefix tables of 1..3 slots and pp+2 prefixes in play, so that one
+    row hits a resident prefix and then misses often enough to come round to its slot: the writer either refuses the
+    row or the reader resolves every id of it to the string the writer meant. Histories end at the first refusal."""
+    import common
+
+    reqs, resp, metas = [], [], []
+    for i in range(ctx.n(300, 3000)):
+        cls = r.choice("TQ")
+        pp = r.choice([1, 2, 2, 3, 3])
+        o = Opts(fs=r.choice([1, 250]), lt=0, gen=True, star=False, delim=True, pn=8, pp=pp, pd=1)
+        prefixes = [f"http://p{j}.example/" for j in range(pp + 2)]
+        names = ["a", "b", "c"]
+        ops, stmts = [("enroll",)], []
+        for _ in range(r.randint(1, 5)):
+            # biased towards rows that start with the prefix used last (a hit) and then go through fresh ones
+            k = 4 if cls == "Q" else 3
+            st = []
+            for slot in range(k):
+                if slot == 0 and stmts and r.random() < 0.6:
+                    st.append(stmts[-1][-1] if isinstance(stmts[-1][-1], IRI) else IRI(r.choice(prefixes) + r.choice(names)))
+                elif r.random() < 0.12:
+                    st.append(BlankNode("b" + str(r.randrange(2))))
+                else:
+                    st.append(IRI(r.choice(prefixes) + r.choice(names)))
+            stmts.append(tuple(st))
+            ops.append(("q" if cls == "Q" else "t", tuple(st)))
+        ops.append(("flush",))
+        line = impl.run_step(cls, o, ops)
+        reqs.append(f"step {cls} {o.token()} " + " ".join(impl.step_op_token(op) for op in ops))
+        resp.append(line)
+        metas.append((cls, pp, ops, stmts))
+    model = [m.replace("~", "") for m in common.run_driver(reqs)]
+    for q, a, m in zip(reqs, resp, model):
+        ctx.compare("SERSTEP", q, a, m)
+    spec_reqs = []
+    for (cls, pp, ops, stmts), line in zip(metas, resp):
+        toks = line.split(" ")[:-1]
+        frames = b"".join(bytes.fromhex(f[1:]) for t in toks for f in t.split("!")[0].split("+") if f.startswith("F"))
+        spec_reqs.append(spec_line(frames, True))
+    for (cls, pp, ops, stmts), line, sline, req in zip(metas, resp, common.run_driver(spec_reqs), reqs):
+        toks = line.split(" ")[:-1]
+        data_toks = [t for op, t in zip(ops, toks) if op[0] in ("t", "q")]
+        accepted = [st for st, t in zip(stmts, data_toks) if "!" not in t]
+        n_ref = len(stmts) - len(accepted)
+        ctx.case(("row-level", req), True, sample=dict(cls=cls, pp=pp, refused=n_ref, outcome=line[-60:]))
+        ctx.dist[f"row_level:pp={pp}:refused={min(n_ref, 2)}"] += 1
+        verdict, evs, _ = parse_spec_response(sline)
+        want_st = [gen.normalize_stmt((Quad if cls == "Q" else Triple)(*st)) for st in accepted]
+        want = "_" if not want_st else " ".join("S" + stmt_text(x) for x in want_st)
+        if verdict != "ok" or evs != want:
+            ctx.fail(f"ids written for a row do not resolve to the strings the writer meant ({verdict})",
+                     dict(request=req, response=line[:1200], referee=sline[:1000], want=want[:1000]))
+
+
+def _c05_grouped_level(ctx: Ctx, r) -> None:
+    """Writer tables carried from sink to sink by the grouped entry points, with sinks that bring only namespace
+    declarations (no statements), sinks that bring nothing, and sinks with both: every id of every later row has to
+    resolve, on the real reader, to the string the writer meant."""
+    import common
+
+    reqs, resp, metas = [], [], []
+    for _ in range(ctx.n(120, 1200)):
+        cls = r.choice("TQ")
+        pn, pp, pd = r.choice([(8, 1, 1), (8, 2, 2), (9, 3, 2), (16, 8, 8), (128, 16, 16)])
+        o = Opts(fs=r.choice([1, 3, 250]), lt=r.choice([1, 3]) if cls == "T" else r.choice([2, 4]), gen=True, star=True, delim=True,
+                 ns=r.random() < 0.8, pn=pn, pp=pp, pd=pd)
+        g = gen.G(r, typed=True, n_prefixes=r.choice([2, 4, 6]), n_names=r.choice([3, 6]))
+        sinks, want = [], []
+        for j in range(r.randint(2, 5)):
+            kind = r.random()
+            stmts = [] if kind < 0.35 else gen_fitting(r, cls, o, r.randint(1, 3))
+            bindings = [] if 0.25 < kind < 0.35 else [(r.choice(["a", "b", "", "ex"]), g.iri()) for _ in range(r.randint(0 if stmts else 1, 2))]
+            if j == 0 and cls == "T" and not stmts:
+                stmts = gen_fitting(r, cls, o, 1)  # (the stream class is guessed from the first sink's first statement)
+                if not stmts:
+                    break
+            sinks.append(mk_sink(stmts, bindings))
+            if o.ns:
+                want += ["N" + hx(p) + "=" + term_text(t) for p, t in sinks[-1].namespaces]
+            want += ["S" + stmt_text(x) for x in expected_events(stmts, cls)]
+        if len(sinks) < 2:
+            continue
+        line, b = impl.run_ser_grouped(o, sinks)
+        reqs.append(f"ser {cls} grouped {o.token()} " + "+".join(sink_arg(sk) for sk in sinks))
+        resp.append(line)
+        ctx.case(("grouped-level", reqs[-1]), True)
+        ctx.dist["grouped_level_histories"] += 1
+        ctx.dist["grouped_level:first_sink_" + ("declarations_only" if not len(sinks[0]) and list(sinks[0].namespaces) else "other")] += 1
+        if not (line.startswith("ok ") and line.endswith(" end")):
+            continue
+        try:
+            got = events_text(real_parse_flat(b))
+        except Exception as e:  # noqa: BLE001
+            got = "!" + type(e).__name__
+        if got != (" ".join(want) or "_"):
+            ctx.fail("reader out of step with the writer across the sinks of a grouped serialization",
+                     dict(request=reqs[-1], got=got[:1500], want=" ".join(want)[:1500]))
+    ctx.corr("SER", reqs, resp)
 
 
 def _c05_term_level(ctx: Ctx, r) -> None:
@@ -379,7 +482,7 @@ def _ser_cases(ctx: Ctx, r, n: int, *, ns=False):
             # guess_stream looks at the first sink only: an empty first sink is not a triples sink
             resp, b = impl.run_ser_grouped(o, sinks)
             req = f"ser {cls} grouped {o.token()} " + "+".join(sink_arg(s) for s in sinks)
-            if sinks and not sinks[0].store and cls == "T":
+            if sinks and not len(sinks[0]) and cls == "T":
                 entry = "grouped-empty-first"
         cases.append(dict(cls=cls, entry=entry, o=o, stmts=stmts, bindings=bindings, req=req, resp=resp, bytes=b))
     return cases
@@ -745,6 +848,56 @@ def check_C19(ctx: Ctx) -> None:
         # size never exceeds the naive encoding: measured against a no-table-reuse bound
         ctx.dist["bytes_total"] += len(c["bytes"])
     _c19_rdflib(ctx, r)
+    _c19_after_rejection(ctx, ctx.rng("after-rejection"))
+
+
+def _c19_after_rejection(ctx: Ctx, r) -> None:
+    """The contract after a statement was rejected and the caller carried on: a rejection that did not use the tables
+    leaves the stream usable, and the statements after it are still compared with the last statement that was WRITTEN
+    (equal terms omitted, zero forms used). Audited by the referee on the real frames."""
+    import common
+
+    reqs, resp, metas = [], [], []
+    for i in range(ctx.n(200, 2000)):
+        cls = r.choice("TQ")
+        o = Opts(fs=r.choice([1, 3, 250]), lt=0, gen=True, star=False, delim=True, pn=64, pp=r.choice([0, 8]), pd=8)
+        g = gen.G(r, typed=True, n_prefixes=3, n_names=5, star=False)
+        ops, prev, n_clean = [("enroll",)], None, 0
+        for j in range(r.randint(3, 9)):
+            st = list(g.quad(prev) if cls == "Q" else g.triple(prev))
+            if _has_xsd_string([st]):
+                continue
+            if prev is not None and r.random() < 0.4:
+                # a statement that is refused before it has touched a lookup table: (a) unsupported first term, (b) terms
+                # repeated from the last written statement (omitted: no table use) and then a missing / unsupported one
+                k = r.choice([0, 1, 2, 3] if cls == "Q" else [0, 1, 2])
+                bad = list(prev[:k]) + [UNSUPPORTED] if r.random() < 0.6 else list(prev[:k])
+                ops.append(("q" if cls == "Q" else "t", tuple(bad)))
+                n_clean += 1
+            ops.append(("q" if cls == "Q" else "t", tuple(st)))
+            prev = st
+        ops.append(("flush",))
+        line = impl.run_step(cls, o, ops)
+        reqs.append(f"step {cls} {o.token()} " + " ".join(impl.step_op_token(op) for op in ops))
+        resp.append(line)
+        metas.append((cls, n_clean))
+    model = common.run_driver(reqs)
+    for q, a, m in zip(reqs, resp, model):
+        ctx.compare("SERSTEP", q, a, m.replace("~", ""))
+    spec_reqs = []
+    for line in resp:
+        toks = line.split(" ")[:-1]
+        spec_reqs.append(spec_line(b"".join(bytes.fromhex(f[1:]) for t in toks for f in t.split("!")[0].split("+") if f.startswith("F")), True))
+    for (cls, n_clean), line, sline, req in zip(metas, resp, common.run_driver(spec_reqs), reqs):
+        n_rej = sum(1 for t in line.split(" ")[:-1] if "!" in t)
+        ctx.case(("after-rejection", req), n_rej > 0, sample=dict(cls=cls, rejected=n_rej, outcome=line[-60:]))
+        ctx.dist[f"after_rejection:rejected={min(n_rej, 3)}"] += 1
+        verdict, _, audit = parse_spec_response(sline)
+        if verdict != "ok":
+            continue  # C20's business
+        bad = {k: v for k, v in audit.items() if v and k != "g"}
+        if bad:
+            ctx.fail(f"compression contract broken after a rejected statement: {bad}", dict(request=req, response=line[:1200], referee=sline[:1200]))
 
 
 def _c19_rdflib(ctx: Ctx, r) -> None:
@@ -818,6 +971,69 @@ def _c19_rdflib(ctx: Ctx, r) -> None:
 # ---------------------------------------------------------------------------------------------
 # C04 / C16 (reference encoder)
 # ---------------------------------------------------------------------------------------------
+
+def _big_frame_cases(ctx: Ctx, r, n: int) -> None:
+    """Frames larger than the reader's chunk size (MAX_READ_SIZE, 1 MiB), at the first / a middle / the last position.
+
+    The frame is inflated with a metadata value, so the content of the stream is that of the same rows in small
+    frames; every reader of both integrations, from memory, a file and a non-seekable source, has to yield exactly that.
+    """
+    import rimpl
+
+    mib = 1 << 20
+    targets = [mib - 1, mib, mib + 1, mib + 4097, int(1.4 * mib), 2 * mib, 2 * mib + 5, int(3.3 * mib)]
+    for i in range(n):
+        rdf11 = i % 2 == 1
+        g = gen.G(r, star=False, generalized=False, case_langs=False) if rdf11 else gen.G(r)
+        if rdf11:
+            g.bnode = lambda: BlankNode(r.choice(["b0", "b1", "n1"]))
+        s = refenc.build_valid_stream(r, g, n_stmts=r.randint(3, 8))
+        rows = s["rows"]
+        if len(rows) < 4:
+            continue
+        cuts = sorted(r.sample(range(1, len(rows)), min(len(rows) - 1, r.randint(2, 4))))
+        frames = refenc.cut_frames(r, rows, cuts=cuts, repeat_options_prob=0.0, empty_prob=0.0, metadata_prob=0.2)
+        small = refenc.frames_to_bytes(frames, True)
+        want = impl.run_par("flat", False, "seek", small)
+        if want != s["events_text"] + " end":
+            continue  # judged elsewhere (C04 proper)
+        where = [0, len(frames) // 2, len(frames) - 1][i % 3]
+        target = targets[(i // 3) % len(targets)] + (r.randint(-3, 3) if i >= 3 * len(targets) else 0)
+        big = [jelly.RdfStreamFrame.FromString(f.SerializeToString()) for f in frames]
+        big[where].metadata["pad"] = b""
+        base_len = big[where].ByteSize()
+        pad = max(0, target - base_len - 8)
+        big[where].metadata["pad"] = bytes(pad)
+        # adjust to hit the target length exactly when possible (the length prefixes of the map entry grow with pad)
+        for _ in range(4):
+            d = target - big[where].ByteSize()
+            if d == 0 or pad + d < 0:
+                break
+            pad += d
+            big[where].metadata["pad"] = bytes(pad)
+        b = refenc.frames_to_bytes(big, True)
+        ctx.case(("big-frame", where, big[where].ByteSize(), small.hex()[:64]), True)
+        ctx.dist[f"big_frame:{['first', 'middle', 'last'][i % 3]}"] += 1
+        for source in ("seek", "file", "raw:65536", "raw:1000003"):
+            got = impl.run_par("flat", False, source, b)
+            if got != want:
+                ctx.fail(f"a frame of {big[where].ByteSize()} bytes at frame position {where} of {len(big)} changes the flat parse ({source})",
+                         dict(small_frames=small.hex(), big_frame_index=where, big_frame_length=big[where].ByteSize(), pad=pad,
+                              got=got[-300:], want=want[-300:], source=source))
+                break
+        grouped_small = impl.run_par("grouped", False, "seek", small)
+        grouped_big = impl.run_par("grouped", False, "seek", b)
+        if grouped_small != grouped_big:
+            ctx.fail(f"a frame of {big[where].ByteSize()} bytes at frame position {where} changes the grouped parse",
+                     dict(small_frames=small.hex(), big_frame_index=where, big_frame_length=big[where].ByteSize(), pad=pad,
+                          got=grouped_big[-300:], want=grouped_small[-300:]))
+        if rdf11:
+            rs, rb = rimpl.run_par_flat(False, "seek", small), rimpl.run_par_flat(False, "seek", b)
+            if rs != rb:
+                ctx.fail(f"rdflib: a frame of {big[where].ByteSize()} bytes at frame position {where} changes the flat parse",
+                         dict(small_frames=small.hex(), big_frame_index=where, big_frame_length=big[where].ByteSize(), pad=pad,
+                              got=rb[-300:], want=rs[-300:]))
+
 
 def check_C04(ctx: Ctx) -> None:
     r = ctx.rng("ref")
@@ -901,6 +1117,7 @@ def check_C04(ctx: Ctx) -> None:
         elif s["delimited"] and len(sinks) != len(s["frames"]):
             ctx.fail(f"rdflib grouped parser yields {len(sinks)} graphs/datasets for {len(s['frames'])} frames", dict(bytes=b.hex()))
     ctx.corr("PARSE-rdflib", reqs, resp)
+    _big_frame_cases(ctx, ctx.rng("big-frames"), ctx.n(9, 48))
     # the same streams consumed by several parsers that are alive at the same time (generators advanced in turns)
     from pyjelly.integrations.generic.parse import parse_jelly_flat
     for k in range(0, len(streams) - 2, 3):
@@ -1131,6 +1348,7 @@ def check_C06(ctx: Ctx) -> None:
     # rdflib entry points: Graph.serialize through the plugin (explicit stream of every class, inferred and explicit
     # flows, both framings), rdflib flat_/grouped_stream_to_file
     _c06_rdflib(ctx, r)
+    _c06_short_writes(ctx, ctx.rng("short-writes"))
     # sink.serialize / sink.parse
     for _ in range(ctx.n(60, 600)):
         cls = r.choice("TQ")
@@ -1150,6 +1368,78 @@ def check_C06(ctx: Ctx) -> None:
         want = expected_events(stmts, cls)
         if [stmt_text(x) for x in back.store] != [stmt_text(x) for x in want]:
             ctx.fail("sink.serialize/sink.parse round trip differs", dict(statements=stmts_text(stmts)))
+
+
+class _ShortWriter(io.RawIOBase):
+    """A raw (unbuffered) binary stream that takes at most `limit` bytes per write() and says so in its return value,
+    as an unbuffered pipe or socket object does once the kernel buffer is full."""
+
+    def __init__(self, limit: int) -> None:
+        self.data = bytearray()
+        self.limit = limit
+
+    def writable(self) -> bool:
+        return True
+
+    def write(self, b) -> int:
+        taken = bytes(b[: self.limit])
+        self.data += taken
+        return len(taken)
+
+
+def _c06_short_writes(ctx: Ctx, r) -> None:
+    """Every *_to_file entry point of both integrations writing to an output stream that takes only part of what it
+    is handed: the call either raises or everything handed in is in the bytes the stream took."""
+    import rdflib
+
+    import rimpl
+    from pyjelly.integrations.generic import serialize as gser
+    from pyjelly.integrations.rdflib import serialize as rser
+
+    for _ in range(ctx.n(60, 600)):
+        cls = r.choice("TQ")
+        delim = r.random() < 0.5
+        o = Opts(fs=r.choice([1, 5, 250]), lt={"T": 1, "Q": 2}[cls], gen=False, star=False, delim=delim, pn=64, pp=8, pd=8)
+        stmts = _rdf11_statements(r, cls, o, r.randint(3, 30))
+        if not stmts:
+            continue
+        limit = r.choice([1, 2, 3, 7, 40, 200, 1000, 10**9])
+        how = r.choice(["generic-flat", "generic-grouped", "rdflib-flat", "rdflib-grouped", "rdflib-serializer", "rdflib-plugin"])
+        out = _ShortWriter(limit)
+        so = o.real()
+        store = _to_store(stmts, cls)
+        try:
+            if how == "generic-flat":
+                gser.flat_stream_to_file((x for x in stmts), out, options=so)
+            elif how == "generic-grouped":
+                gser.grouped_stream_to_file((x for x in [mk_sink(stmts)]), out, options=so)
+            elif how == "rdflib-flat":
+                seq = [tuple(rimpl.to_rdflib(t) for t in st) for st in stmts]
+                rser.flat_stream_to_file((rimpl.rparse.Quad(*x) if len(x) == 4 else rimpl.rparse.Triple(*x) for x in seq), out, so)
+            elif how == "rdflib-grouped":
+                rser.grouped_stream_to_file((x for x in [store]), out, options=so)
+            elif how == "rdflib-serializer":
+                rser.RDFLibJellySerializer(store).serialize(out, options=so)
+            else:
+                store.serialize(destination=out, format="jelly", options=so)
+            err = None
+        except Exception as e:  # noqa: BLE001
+            err = type(e).__name__
+        ctx.case(("short-write", how, delim, limit, stmts_text(stmts)), True)
+        ctx.dist[f"short_write:{how}:{'delimited' if delim else 'non-delimited'}:{'raised' if err else 'returned'}"] += 1
+        if err is not None:
+            continue
+        back = rdflib.Dataset() if cls == "Q" else rdflib.Graph()
+        try:
+            back.parse(data=bytes(out.data), format="jelly")
+            got = sorted(set(_norm_text(t) for t in rimpl.store_quads(back)))
+        except Exception as e:  # noqa: BLE001
+            got = "!" + type(e).__name__
+        want = sorted(set(_norm_text(t) for t in rimpl.store_quads(store)))
+        if got != want:
+            ctx.fail(f"{how} returned normally although the output stream took only part of the data ({len(out.data)} bytes written)",
+                     dict(entry=how, delimited=delim, write_limit=limit, opts=o.describe(), statements=stmts_text(stmts)[:1500],
+                          got=str(got)[:300]))
 
 
 def _c06_rdflib(ctx: Ctx, r) -> None:
@@ -1318,6 +1608,7 @@ def check_C07(ctx: Ctx) -> None:
                 reqs.append(f"par flat 0 1 seek {b.hex()}")
                 resp.append(flat)
     ctx.corr("PARSE", reqs, resp)
+    _big_frame_cases(ctx, ctx.rng("big-frames"), ctx.n(9, 48))
     # (b, rdflib) one Graph/Dataset per frame with exactly that frame's statements, for frame cuts inside a graph run
     import rimpl
     for i in range(ctx.n(80, 800)):
@@ -1845,6 +2136,16 @@ def check_C10(ctx: Ctx) -> None:
                 ctx.fail(f"statements of fully delivered frames were lost: {len(got)} yielded, {events_upto[done]} delivered ({tail})",
                          dict(bytes=b.hex(), cut=k))
             ctx.dist["outcome:" + tail.lstrip("!")] += 1
+            if k >= 4 and (k in ends or k % 11 == 0 or not ctx.quick()) and r.random() < (0.5 if ctx.quick() else 0.15):
+                # the same cut reached while the parser is already reading (the producer appends, then dies at k): the
+                # input had only `v0` bytes when it was opened, and every later read finds what it asks for up to k
+                v0 = r.choice([r.randint(3, k), r.randint(3, k)] + [e + d for e in ends for d in (-1, 0, 1, 2) if 3 <= e + d <= k])
+                src = r.choice(["grow", "growfile"]) + f":{v0}"
+                grown = impl.run_par("flat", False, src, b[:k])
+                ctx.dist["cuts_on_a_growing_input"] += 1
+                if grown.rpartition(" ")[0] != body:
+                    ctx.fail(f"a stream cut at {k} parses differently when it had {v0} bytes at the time the parser opened it ({src.split(':')[0]})",
+                             dict(bytes=b.hex(), cut=k, visible_at_open=v0, source=src, got=grown[-400:], want=line[-400:]))
             if ctx.quick() and k % 7 != 0 and k not in ends:
                 continue
             reqs.append(f"par flat 0 1 seek {b[:k].hex()}" if k else "par flat 0 1 seek")
@@ -2890,8 +3191,20 @@ def check_C20(ctx: Ctx) -> None:
         n = r.randint(2, 8)
         ops, accepted = [("enroll",)], []
         prev = None
+        last_rejected = None
         for j in range(n):
             st = list(g.quad(prev) if cls == "Q" else g.triple(prev))
+            if last_rejected is not None and r.random() < 0.5:
+                # the statement that was just refused, offered again in an encodable form: its leading terms are what a
+                # half-undone rejection would have left in the repeated-term memory
+                st = list(last_rejected)
+            elif integ == "generic" and r.random() < 0.3:
+                # terms that do not use the lookup tables (a rejection after them leaves the stream usable)
+                st[0] = BlankNode(r.choice(["t0", "t1", "t2"]))
+                st[1] = prev[1] if prev is not None and r.random() < 0.6 else BlankNode(r.choice(["t0", "t1"]))
+                st[2] = Literal(r.choice(["x", "y", "z"]), langtag=r.choice([None, "en"]))
+            last_rejected = None
+            orig = list(st)
             bad = r.random() < 0.35
             cause = None
             if bad:
@@ -2909,6 +3222,7 @@ def check_C20(ctx: Ctx) -> None:
                     st[slot] = Triple(g.iri(), g.iri(), Triple(g.iri(), UNSUPPORTED, g.iri()))
                 else:
                     st = st[: r.randrange(0, len(st))]
+                last_rejected = orig
             if cls == "G":
                 gid = g.term("g") if not (bad and cause == "unsupported" and r.random() < 0.3) else UNSUPPORTED
                 # several triples per graph: the ones before a rejected triple were accepted (and possibly already cut
